@@ -35,6 +35,7 @@ STREAMS = {
     "c18ld": {"enc": True, "what": "senc before saiz/saio, 16-byte IV, saio v1"},
     "c18le": {"enc": False, "what": "numbered from 0 / 7, 64 KiB segments"},
     "c18lf": {"enc": True, "what": "largesize mdat, encrypted, PIFF clone"},
+    "c18lg": {"enc": False, "what": "two segments only, timescales 10^7 (video) and 1000 (audio)"},
 }
 DURATION_S = N_SEG * 4
 
@@ -103,6 +104,9 @@ def build(name: str) -> dict:
                                                encrypted=True, traf_order="trun,senc,piff,saiz,saio"))
         a = largesize_mdat(mp4synth.make_track("audio", A_TS, a_d, samples_per_segment=A_SAMPLES, seed=192,
                                                track_id=2, encrypted=True))
+    elif name == "c18lg":
+        v = mp4synth.make_track("video", 10_000_000, [40_000_000] * 2, samples_per_segment=4, seed=193, track_id=1)
+        a = mp4synth.make_track("audio", 1000, [4000] * 2, samples_per_segment=4, seed=194, track_id=2)
     else:
         raise KeyError(name)
     suffix = "_enc" if STREAMS[name]["enc"] else ""
